@@ -6,10 +6,23 @@ RULE = ("TLC enumerates ignore files of 1..2 (thorough: 3) lines from 10 glob fo
         "?, nested path, !negation, comment, blank) and 3 regexp forms (hg), for git, docker, hg-glob and hg-regexp, x root spelling "
         "(., relative, absolute, sub-directory, `.` inside a sub-directory) x activation (option, config default, `no...` override) over "
         "a 14-entry tree; Judge_C20 compares the rows (by inode) with git's own `git check-ignore` verdicts resp. the reference "
-        "matchers of Ignore.tla. Non-trivial = something but not everything is ignored.")
+        "matchers of Ignore.tla. Non-trivial = something but not everything is ignored. Mech: IgnoreMech models the translation of a line "
+        "into regular-expression pieces (hg.rs / docker.rs); MC_IgnoreMech shows it equivalent to Ignore.tla on all short lines x paths.")
 ASSUMPTIONS = ["`git check-ignore` (run by the driver in the materialised repository) is git's verdict",
                "Ignore.tla renders hgignore(5) and the .dockerignore rules for the generated pattern subset"]
 POOL = 10
+
+
+def mech(tier, seed):
+    # Mech => Prop: the matchers that hg.rs / docker.rs build from the characters of a line (IgnoreMech) give the verdicts of the
+    # reference matchers (Ignore) for every line up to MaxLen characters on every well-formed path up to MaxPath characters
+    return [dict(module="MC_IgnoreMech", cfg="MC_IgnoreMech_q" if tier == "quick" else "MC_IgnoreMech_t", workers=8, actions=[], coverage=False)]
+
+
+def conformance(tier, seed):
+    # spec -> implementation: the hg / docker scenarios are run and the rows compared with what the modelled matcher lets through
+    return [dict(name="IgnoreMech", module="MC_C20", cfg="MC_C20_q", judge="Judge_IgnoreMech", workers=4,
+                 limit=2500 if tier == "quick" else None)]
 
 
 def generators(tier, seed):
